@@ -147,6 +147,17 @@ func (o *Store) split(t *Collection, n *nodeLoc, s []byte,
 
 	c := t.compare(s, nItem.Key)
 	if c == 0 {
+		// Load the children through this tree's own nodeLocs before copying
+		// them: a copy of an unloaded nodeLoc is loaded separately later on, and
+		// a version that is still referenced (a snapshot, a reader) would then
+		// load its own private copy of the subtree, whose items are never
+		// released when that version dies.
+		if _, err := nNode.left.read(o); err != nil {
+			return &emptyNodeLoc, &emptyNodeLoc, &emptyNodeLoc, err
+		}
+		if _, err := nNode.right.read(o); err != nil {
+			return &emptyNodeLoc, &emptyNodeLoc, &emptyNodeLoc, err
+		}
 		left := t.mkNodeLoc(nil).Copy(&nNode.left)
 		right := t.mkNodeLoc(nil).Copy(&nNode.right)
 		middle := t.mkNodeLoc(nil).Copy(n)
